@@ -66,8 +66,9 @@
       goes up by one per tick (tick_election_waits) and after exactly
       max 1 (randomized_election_timeout - election_elapsed) ticks - at most
       max 1 randomized_election_timeout (election_timeout_bound) - the counter is cleared and
-      hup runs (tick_election_fires).  hup_campaigns: hup on a non-leader with no unapplied
-      membership change ends as PreCandidate (pre_vote), as Candidate of term+1 that voted
+      hup runs (tick_election_fires).  hup_campaigns: hup on a non-leader whose window scan
+      (C09 hup_scan, the window of fix a8252b4) finds no unapplied membership change ends
+      as PreCandidate (pre_vote), as Candidate of term+1 that voted
       for itself, or as Leader of term+1 (own vote = quorum); never as Follower (the own
       vote cannot lose: vote_result_not_lost).  randomized_timeout_range: reset installs
       the oracle's next draw as randomized_election_timeout and clears both counters
